@@ -8,6 +8,7 @@ package vmc
 import (
 	"fmt"
 	"runtime"
+	"sort"
 	"strings"
 	"time"
 	"unsafe"
@@ -120,8 +121,11 @@ type Sched struct {
 	snap []ThreadInfo
 	idle bool
 
-	shadow map[unsafe.Pointer]*shadow
-	Races  []RaceReport
+	shadow    map[unsafe.Pointer]*shadow
+	ranges    map[uintptr][]rangeRec
+	rangeKeep []any
+	rangeKept map[uintptr]bool
+	Races     []RaceReport
 
 	EnvData any // scenario scratch
 }
@@ -318,13 +322,10 @@ func (s *Sched) dispatch(self *Thread) {
 func (s *Sched) op(what string, en func() bool, apply func()) {
 	t := s.cur
 	if s.aborting {
-		// teardown: the first operation unwinds the thread, operations reached from its
-		// deferred functions are no-ops
-		if !t.exiting {
-			t.exiting = true
-			runtime.Goexit()
-		}
-		return
+		// teardown: every operation unwinds: the first one the thread itself, one reached from a
+		// deferred function that deferred function (a drain loop in a defer must not spin)
+		t.exiting = true
+		runtime.Goexit()
 	}
 	t.what, t.en, t.apply, t.parked = what, en, apply, true
 	s.dispatch(t)
@@ -523,10 +524,58 @@ func (r *Result) LibThreadsAlive() []string {
 	return out
 }
 
+type globalReset struct {
+	pkg string
+	idx int
+	f   func()
+}
+
+var (
+	globalResets  []globalReset
+	resetPkgOrder = map[string]int{}
+	resetsSorted  bool
+)
+
+// RegisterReset registers (from the init functions the rewriter generates) one step of the
+// re-initialisation of the package-level variables of a rewritten package: idx is the position
+// of the variable's initialiser in the package's initialisation order (-1: no initialiser, the
+// variable is zeroed). Every execution starts from the state of a fresh process; packages are
+// reset in the order their init functions ran (dependencies first).
+func RegisterReset(pkg string, idx int, f func()) {
+	if _, ok := resetPkgOrder[pkg]; !ok {
+		resetPkgOrder[pkg] = len(resetPkgOrder)
+	}
+	globalResets = append(globalResets, globalReset{pkg, idx, f})
+	resetsSorted = false
+}
+
+// Zero sets a variable to the zero value of its type.
+func Zero[T any](p *T) {
+	var z T
+	*p = z
+}
+
+func runGlobalResets() {
+	if !resetsSorted {
+		sort.SliceStable(globalResets, func(i, j int) bool {
+			a, b := globalResets[i], globalResets[j]
+			if a.pkg != b.pkg {
+				return resetPkgOrder[a.pkg] < resetPkgOrder[b.pkg]
+			}
+			return a.idx < b.idx
+		})
+		resetsSorted = true
+	}
+	for _, r := range globalResets {
+		r.f()
+	}
+}
+
 // RunOnce executes body under the scheduler following prefix, default choices afterwards.
 func RunOnce(prefix []int, opt Options, body func()) *Result {
 	s := &Sched{opt: opt, prefix: prefix, exited: make(chan int, 4096), regs: map[uintptr]int{}}
 	S = s
+	runGlobalResets()
 	if opt.MaxSteps == 0 {
 		s.opt.MaxSteps = 200000
 	}
@@ -557,6 +606,7 @@ func RunOnce(prefix []int, opt Options, body func()) *Result {
 			gone[<-s.exited] = true
 		}
 	}
+	s.cur = nil // outside of an execution: the shims fall back to their real counterparts
 	res := &Result{Trace: s.Trace, End: s.End, PanicMsg: s.PanicMsg, Steps: s.steps, Used: s.used, Ops: s.Ops, NowNS: s.now, Races: s.Races}
 	s.snapshot()
 	res.Threads = s.snap
